@@ -1,6 +1,10 @@
 # -*- coding: utf-8 -*-
 """C20 - event emitter: ordered delivery, exact unsubscription, once means once
-(hotxlfp/tinyemitter.py, also through hotxlfp.Parser which inherits it)"""
+(hotxlfp/tinyemitter.py, also through hotxlfp.Parser which inherits it)
+
+one case kind, `script`: a history of operations with the keys on (emitter / parser / debugparser = hotxlfp.Parser(debug=True)),
+flavour (function / bound / wrapped / orphan = bound methods of host objects that only the emitter refers to), latectx, rets,
+ownnames, names, bodies, ops, fuel"""
 import itertools
 
 from .. import common
@@ -11,15 +15,18 @@ FUNCTIONS = ['hotxlfp.tinyemitter:Emitter.on', 'hotxlfp.tinyemitter:Emitter.once
              'hotxlfp.tinyemitter:Emitter.emit', 'hotxlfp.tinyemitter:Emitter.off']
 RULE = ('1500*scale (thorough 20000) seeded histories of 1..30 (thorough 1..60) operations on/once/off(name)/off(name,cb)/emit '
         'over 2-3 names x 3-4 callbacks x 2 contexts, callbacks whose bodies (0..3 operations) subscribe/unsubscribe/emit during '
-        'delivery (nesting depth 0..3), run on a bare Emitter (2/3) or a hotxlfp.Parser (1/3); callback flavour: plain functions '
-        '(1/2), bound methods of host objects fetched anew for every on/once/off (1/4), functools.wraps-decorated versions of '
-        'the callback before them (1/4); with probability 0.4 the context is a mapping bound while empty and filled afterwards '
+        'delivery (nesting depth 0..3), run on a bare Emitter (4/7), a hotxlfp.Parser (2/7) or a hotxlfp.Parser(debug=True) (1/7, on = '
+        'debugparser); callback flavour: plain functions '
+        '(3/8), bound methods of host objects fetched anew for every on/once/off (2/8), functools.wraps-decorated versions of '
+        'the callback before them (2/8), orphan (1/8): bound methods of host objects to which the harness keeps only a weak '
+        'reference, so that nobody but the emitter refers to them - every on/once/off is written with the hook of the object '
+        'a subscription still keeps alive, and with that of a NEW object once none does (or none was ever made); with probability 0.4 the context is a mapping bound while empty and filled afterwards '
         '(latectx); with probability 0.5 (ownnames) the first four names are the parser\'s own event names callFunction / '
         'callVariable / callCellValue / callRangeValue instead of n0, n1, ... (on a Parser its constructor has had a chance to '
         'prepare them; the name delivered to the callbacks as first argument stays the index). 4 fixed histories (re-entrant '
         'once, off by callback of a once-listener, off of one of two callbacks, '
-        'subscribe/unsubscribe during delivery) in the six variants plain / bound / wrapped / latectx / rets / on a Parser '
-        'under its own event names (in 40% of the seeded histories, and in the `rets` variants, the callbacks RETURN '
+        'subscribe/unsubscribe during delivery) in the nine variants plain / bound / wrapped / latectx / rets / on a Parser '
+        'under its own event names / orphan / on a debug parser / on a debug parser under its own event names = 36 cases (in 40% of the seeded histories, and in the `rets` variants, the callbacks RETURN '
         'something - True, a label, a count, the emitter itself, a list, 0, None in rotation - which delivery must ignore). Thorough adds every '
         'history of length <= 4 with an emit over 16 operations (2 names x 2 callbacks) for three body assignments (length 1: '
         'empty bodies only), depth 2, bare Emitter. Observed: the log of calls (callback, argument, context, name, depth) and, for '
@@ -30,7 +37,11 @@ TRUSTED = ['callbacks are modelled as scripts of emitter operations; callbacks t
            'equality (==) of callbacks is modelled by callback ids: plain functions, and bound methods of host objects '
            'fetched anew for every on/once/off (equal, not identical), and functools.wraps-decorated versions of other callbacks; '
            'flavour, late filling of the context, what the callbacks return, the event names used (n0, n1, ... or the '
-           'parser\'s own) and Emitter/Parser are not part of the model request: the model answer is the same']
+           'parser\'s own) and Emitter / Parser / Parser(debug=True) are not part of the model request: the model answer is the same',
+           'flavour orphan: weakref.ref and CPython reference counting decide whether the host object of a callback is still '
+           'alive when the next on/once/off is written (an object no subscription holds is gone at once, a new one is made: its '
+           'hook equals no subscribed one, and none is subscribed); in the model request these are the same callback ids as in every '
+           'other flavour']
 ASSUMPTIONS = ['a once-listener reached first by a nested emit receives that emit (it is called exactly once)',
                'an emit delivers to the subscriptions present when it starts, in subscription order (subscribing / unsubscribing during '
                'delivery takes effect from the next emit; a once-listener that already fired is skipped); off(name, cb) removes every '
@@ -39,7 +50,11 @@ ASSUMPTIONS = ['a once-listener reached first by a nested emit receives that emi
                'host puts into it afterwards is delivered',
                'what a callback returns (a truth value, a label, a number, the emitter, a list, None) has no effect on the delivery',
                'on a Parser the event names it uses itself (callFunction, callVariable, callCellValue, callRangeValue) obey the '
-               'same on / once / off / emit semantics as any other name']
+               'same on / once / off / emit semantics as any other name, and a parser built with debug=True is an emitter like '
+               'any other',
+               'a subscription keeps its listener alive: a bound method of an object that nothing else refers to '
+               '(parser.on(name, Sheet(rows).cell)) is delivered to as long as it is subscribed, and off(name, obj.hook) written '
+               'with the same object removes it']
 EXHAUSTIVE = {'quick': False, 'thorough': False}
 
 CALL_BUDGET = 3000
